@@ -1191,7 +1191,7 @@ FCX = "codemodder/file_context.py"
 add("C06", "findings-lookup-answers-for-a-range-of-lines", FCX,
     [("    def get_findings_for_location(self, line_number: int):", "    def get_findings_for_location(self, line_number: int, end_line: int | None = None):\n        last_line = line_number if end_line is None else end_line"),
      ("                location.start.line <= line_number <= location.end.line", "                location.start.line <= last_line and line_number <= location.end.line")],
-    "fire", "R-CHANGE-FINDINGS", "lookup-single-line")
+    "fire", "R-FINDINGS-LOOKUP", "lookup-single-line")
 add("C06", "benign-findings-lookup-two-comparisons-one-line", FCX,
     [("                location.start.line <= line_number <= location.end.line", "                location.start.line <= line_number and line_number <= location.end.line")],
     "silent")
@@ -1200,3 +1200,23 @@ UWI = "core_codemods/use_walrus_if.py"
 add("C01", "walrus-value-loses-its-own-parentheses", UWI,
     [("    def _build_named_expr(self, target, value, parens=True):\n", "    def _build_named_expr(self, target, value, parens=True):\n        if parens and value.lpar:\n            return cst.NamedExpr(target=target, value=value.with_changes(lpar=[], rpar=[]), lpar=value.lpar, rpar=value.rpar)\n")],
     "fire", "R-PARENS-NOT-STRIPPED", "strip:value")
+
+CDR = "codemodder/code_directory.py"
+for _p in ("C05", "C12", "C17"):
+    add(_p, "project-listing-leaves-out-hidden-directories", CDR,
+        [("        if Path(path).is_file() and not Path(path).is_symlink()", "        if not any(part.startswith(\".\") for part in path.parts[:-1])\n        and Path(path).is_file()\n        and not Path(path).is_symlink()")],
+        "fire", "R-ENUM-SIBLINGS", "kind-tests-only")
+
+DDA = "core_codemods/defectdojo/api.py"
+add("C12", "defectdojo-results-equal-by-id-and-deduplicated", DDA,
+    [("        result_set |= DefectDojoResultSet.from_json(filename)\n", "        result_set |= DefectDojoResultSet.from_json(filename)\n    for results_by_file in result_set.values():\n        for path, results in results_by_file.items():\n            results_by_file[path] = list(dict.fromkeys(results))\n")],
+    "fire", "R-RESULT-EQUALITY", "dedup:",
+    extra_files={DDR: [("    @override\n    def match_location(self, pos: CodeRange, node: cst.CSTNode) -> bool:", "    def __eq__(self, other: object) -> bool:\n        return isinstance(other, DefectDojoResult) and self.finding_id == other.finding_id\n\n    def __hash__(self) -> int:\n        return hash(self.finding_id)\n\n    @override\n    def match_location(self, pos: CodeRange, node: cst.CSTNode) -> bool:")]})
+add("C12", "benign-defectdojo-exact-copies-dropped", DDA,
+    [("        result_set |= DefectDojoResultSet.from_json(filename)\n", "        result_set |= DefectDojoResultSet.from_json(filename)\n    for results_by_file in result_set.values():\n        for path, results in results_by_file.items():\n            results_by_file[path] = [r for i, r in enumerate(results) if r not in results[:i]]\n")],
+    "silent")
+
+for _p in ("C06", "C19"):
+    add(_p, "findings-lookup-iterates-locations-in-a-second-generator", FCX,
+        [("            if any(\n                location.start.line <= line_number <= location.end.line\n                for location in result.locations\n            )\n            and result.finding is not None", "            for location in result.locations\n            if result.finding is not None\n            and location.start.line <= line_number <= location.end.line")],
+        "fire", "R-FINDINGS-LOOKUP", "lookup-once-per-result")
